@@ -471,6 +471,14 @@ def gen_pairs(rng, families, n):
                 a = [[gen.repeat_vertices(rng, r) for r in p] for p in a]
             if rng.random() < 0.12:
                 b = [[gen.repeat_vertices(rng, r) for r in p] for p in b]
+            # the first ring started at an extreme vertex that is listed several times
+            if rng.random() < 0.1:
+                a = gen.start_at_extreme_and_repeat(rng, a)
+            if rng.random() < 0.1:
+                b = gen.start_at_extreme_and_repeat(rng, b)
+            # mixed signed zeros (families with integer / dyadic coordinates)
+            if rng.random() < 0.08:
+                a, b = gen.signed_zeros(rng, a), gen.signed_zeros(rng, b)
             out.append((fam, a, b))
     return out
 
